@@ -57,7 +57,8 @@ def run_verus_path(path, rlimit=30, multiple_errors=20, extra=None, module=None)
            '--multiple-errors', str(multiple_errors), '--rlimit', str(rlimit),
            '--no-report-long-running', '--num-threads', '4']
     if module:
-        cmd += ['--verify-module', module]
+        only = bool(extra) and '--verify-function' in extra
+        cmd += ['--verify-only-module' if only else '--verify-module', module]
     if extra:
         cmd += extra
     t0 = time.time()
